@@ -5,7 +5,7 @@ will use (ids come from a counter: call/notify +1, batch +n, subscribe +2 — th
 for the unsubscribe call), so it can answer correctly, wrongly, twice, out of order, grouped in arrays...
 Each event carries metadata used only by the oracles (which look at the implementation's output alone).
 """
-import json, itertools
+import json, itertools, os
 import vlib
 
 
@@ -481,6 +481,76 @@ def first_unjustified_back(H, evs):
 
 # ---------------------------------------------------------------- oracles (implementation output only)
 
+def observed_at(H, idx):
+    """index of the event in whose output the completion caused by event idx is reported: idx itself, or -- when the
+    harness is not polling the front-end futures (`hold` .. `unhold`) -- the `unhold` that follows"""
+    held = False
+    for j, (t, m) in enumerate(H.ev):
+        if m.get("kind") == "hold":
+            held = True
+        elif m.get("kind") == "unhold":
+            if held and j > idx:
+                return j
+            held = False
+        if j == idx and not held:
+            return idx
+    return idx
+
+
+def oracle_c03_held(H, evs, fail):
+    """family c03_held_histories: the callers are not polled while the server answers and the connection then dies.  Every
+    call / batch / subscribe whose own-id response reached the client BEFORE the fatal event completes with that response
+    (never with the disconnect error); a call issued after the death fails with the disconnect class."""
+    kinds = [m.get("kind") for _, m in H.ev]
+    if "hold" not in kinds or "unhold" not in kinds:
+        return
+    hold_idx, un = kinds.index("hold"), kinds.index("unhold")
+    fatal_idx = next((idx for idx, (t, m) in enumerate(H.ev)
+                      if m.get("kind") in ("fault", "failsend") or str(m.get("what", "")).startswith("bad-")), None)
+    written = {}           # wire id -> event index of the request carrying it
+    for k, o in wire_requests(evs):
+        for x in (o if isinstance(o, list) else [o]):
+            if isinstance(x, dict) and "id" in x:
+                try:
+                    written.setdefault(int(x["id"]), k)
+                except Exception:
+                    pass
+    for idx, (t, m) in enumerate(H.ev):
+        w = m.get("what")
+        if w not in ("answer", "batch-answer", "sub-ok") or not (hold_idx < idx < (un if fatal_idx is None else min(fatal_idx, un))):
+            continue
+        h = m["h"]
+        first_id = m["lo"] if w == "batch-answer" else m["id"]
+        if written.get(first_id, len(evs)) >= hold_idx:
+            continue                      # the request was not on the wire when the callers stopped being polled
+        got = [r for d in evs[:un + 1] for r in d["C"].get(h, [])]
+        if w == "answer":
+            o = m["payload"]
+            want = o["result"] if "result" in o else o["error"]["message"]
+            good = bool(got) and got[0].startswith(("ok:", "call:")) and payload_of(got[0]) == want
+        elif w == "batch-answer":
+            good = bool(got) and got[0].startswith("batch:")
+        else:
+            good = bool(got) and got[0].startswith("sub:")
+        if good:
+            continue
+        what = {"answer": "call", "batch-answer": "batch", "sub-ok": "subscribe call"}[w]
+        if got and got[0] in ("disc", "svcdisc"):
+            fail("answered-call-completed-with-disconnect",
+                 "%s %d (wire id %s, on the wire since event %d) was answered with its own id at event %d, before the connection died at "
+                 "event %s; its caller was polled again at event %d and got %s instead of that response" % (
+                     what, h, first_id, written[first_id], idx, fatal_idx, un, got))
+        else:
+            fail("correct-answer-not-delivered",
+                 "%s %d (wire id %s) was answered with its own id at event %d (caller polled again at event %d) but completed with %s" % (
+                     what, h, first_id, idx, un, got))
+    if fatal_idx is not None:
+        for idx, (t, m) in enumerate(H.ev[un + 1:], start=un + 1):
+            if m.get("kind") == "call" and idx < len(evs):
+                rs = evs[idx]["C"].get(m["h"])
+                if not rs or rs[0] != "disc":
+                    fail("later-call-not-failed-with-cause", "call %d issued after the death completed with %s" % (m["h"], rs))
+
 def oracle_c03(H, evs, fail):
     """each call completes at most once, with the response bearing the id it put on the wire"""
     wid = {}
@@ -519,11 +589,13 @@ def oracle_c03(H, evs, fail):
             gave_up = any(mm.get("kind") == "giveup" and mm.get("h") == h for _, mm in H.ev[:idx])
             if first and not gave_up and h in wire_at and wire_at[h] < idx and (died_at is None or died_at >= idx) \
                     and (bad_at is None or idx < bad_at):
-                got = evs[idx]["C"].get(h)
+                got = evs[observed_at(H, idx)]["C"].get(h)
                 if not got or not (got[0].startswith("ok:") or got[0].startswith("call:")):
                     fail("correct-answer-not-delivered",
                          "call %d (id %s) was on the wire since event %d; its answer at event %d gave %s%s" % (
                              h, i, wire_at[h], idx, got, " and the client shut down (%s)" % evs[idx]["F"] if evs[idx]["F"] else ""))
+    if getattr(H, "held", False):
+        oracle_c03_held(H, evs, fail)
     for k, d in enumerate(evs):
         for h, rs in d["C"].items():
             for r in rs:
@@ -741,10 +813,15 @@ def oracle_c09(H, evs, tables, panic, fail):
 
 # ---------------------------------------------------------------- running
 
+def impl_bin():
+    """VERIF_CLIHIST_BIN overrides the implementation binary (a harness copy built against another tree)."""
+    return os.environ.get("VERIF_CLIHIST_BIN") or vlib.rust_bin("clihist")
+
+
 def ack_wire_unsubs(hists):
     """first pass on the implementation: acknowledge every unsubscribe request that reached the wire and that
     the scripted server has not answered, so that the history really ends quiescent (C18)"""
-    impl = vlib.rust_bin("clihist")
+    impl = impl_bin()
     clean = [H for H in hists if H.clean]
     outs = vlib.run_lines([impl], [H.text() for H in clean], min_shard=20)
     for H, a in zip(clean, outs):
@@ -766,7 +843,7 @@ def ack_wire_unsubs(hists):
 
 def run_histories(ctx, hists, oracles, tag="random"):
     """hists: list of Hist.  Runs impl (release) and model, diffs, applies the named oracles."""
-    impl, model = vlib.rust_bin("clihist"), vlib.model_bin("clihist")
+    impl, model = impl_bin(), vlib.model_bin("clihist")
     if "c18" in oracles:
         ack_wire_unsubs(hists)
     lines = [H.text() for H in hists]
@@ -1696,5 +1773,58 @@ def c18_lag_srvclose_histories(rng):
                     rel(4)
                     H.clean = True
                     H.cleanup_from = len(H.ev)
+                    out.append(H)
+    return out
+
+
+def c03_held_histories(rng):
+    """the callers are busy elsewhere (harness ops `hold` .. `unhold`: the front-end futures are not polled) while the server
+    answers some / all of the requests on the wire (own ids, any order) and the connection then dies (receive error,
+    unparseable frame, response bearing no pending id); control variant without the fatal event.  A request answered before
+    the fatal event completes with its answer, the others with the disconnect error; a call issued afterwards fails with it too."""
+    out = []
+    for idstr in (0, 1):
+        for shape in ("call1", "call2", "call3", "batch", "sub"):
+            for fatal in ("fault", "garbage", "unknown-id", "none"):
+                for ans in ("all", "some"):
+                    H = new_hist(rng, idstr=idstr, qcap=16, bufcap=4, gate=0)
+                    todo = []
+                    for _ in range(int(shape[4:]) if shape.startswith("call") else 1):
+                        H.op_call()
+                        todo.append(("call", H.h))
+                    if shape == "batch":
+                        H.op_batch()
+                        todo.append(("batch", H.h))
+                    elif shape == "sub":
+                        H.op_sub()
+                        todo.append(("sub", H.h))
+                    H.add("hold", kind="hold")
+                    rng.shuffle(todo)
+                    if ans == "some":
+                        todo = todo[:rng.randrange(0, len(todo))] if len(todo) > 1 and rng.random() < 0.5 else todo[:max(1, len(todo) - 1)]
+                    for kind, h in todo:
+                        if kind == "call":
+                            answer_call_h(H, h, ok=rng.random() < 0.75)
+                        elif kind == "sub":
+                            accept_sub_h(H, h)
+                        else:
+                            lo, n = H.batches.pop(h)
+                            ids = list(range(lo, lo + n))
+                            rng.shuffle(ids)
+                            objs = [H.resp_ok(i) if rng.random() < 0.8 else H.resp_err(i) for i in ids]
+                            H.back(J(objs), what="batch-answer", h=h, lo=lo, n=n, mode="perm", objs=objs, items=[])
+                    if fatal == "fault":
+                        H.add("fault", kind="fault")
+                    elif fatal == "garbage":
+                        H.back(rng.choice([b"hello", b"{}", b"[]", b'{"id":1.5,"result":1}']), what="bad-garbage")
+                    elif fatal == "unknown-id":
+                        H.back(H.resp_ok(H.next_id + 50), what="bad-unknown-id")
+                    H.dead = fatal != "none"
+                    H.add("unhold", kind="unhold")
+                    H.op_call()
+                    if fatal == "none":
+                        answer_call_h(H, H.h)
+                    H.clean = False
+                    H.held = True
                     out.append(H)
     return out
